@@ -1365,6 +1365,9 @@ func sameShape(s *spec, t1, t2 int) bool {
 // ---- exec -------------------------------------------------------------------------------------------------------
 
 func exec(c px.Context, op string, args []sx.Sexp) core.Result {
+	if op == "iface" {
+		return execIface(c, args)
+	}
 	if op == "tparam" {
 		return execTParam(c, args)
 	}
